@@ -67,6 +67,9 @@ func (r Req) String() string {
 type Program struct {
 	Defs []Def `json:"defs"`
 	Reqs []Req `json:"reqs"`
+	// Static: the explicit definitions are handed over as ready-made maps to TWO static providers that
+	// share the factories map; every request goes to the first, then to the second provider
+	Static bool `json:"two_static_providers,omitempty"`
 }
 
 func (p Program) String() string {
@@ -486,6 +489,78 @@ func runProgram(p Program) (f *finding) {
 	return nil
 }
 
+// runStatic: two pre-defined (static) providers built over ONE caller-owned factories map (instances
+// in separate maps). Each is a frozen container of its own: lazily built singletons per provider, all
+// definitions refused, and resolving through one of them changes nothing for the other - in
+// particular not the caller's map of definitions.
+func runStatic(p Program) (f *finding) {
+	defer func() {
+		if r := recover(); r != nil {
+			f = &finding{"panic", "no request panics", fmt.Sprintf("program %s (two static providers): panic %v", p, r)}
+		}
+	}()
+	im1 := &impl{count: map[string]int{}, insts: map[string]*obj{}}
+	factories := map[string]app.Factory{}
+	inst1, inst2 := map[string]interface{}{}, map[string]interface{}{}
+	m1, m2 := newModel(), newModel()
+	m2.count = m1.count // the factory closures (and their counters) are shared
+	for _, d := range p.Defs {
+		if d.Default {
+			return nil
+		}
+		if !m1.define(d) {
+			return nil
+		}
+		m2.define(d)
+		if d.Kind == "inst" {
+			inst1[d.Name] = &obj{Src: d.slot()}
+			inst2[d.Name] = &obj{Src: d.slot()}
+		} else {
+			factories[d.Name] = im1.factory(d)
+		}
+	}
+	m1.frozen, m2.frozen = true, true
+	var before []string
+	for k := range factories {
+		before = append(before, k)
+	}
+	sort.Strings(before)
+	im1.dp = dependency.NewStaticProvider("dependency", factories, inst1, nil)
+	im2 := &impl{dp: dependency.NewStaticProvider("dependency", factories, inst2, nil), count: im1.count, insts: im1.insts}
+	for i, r := range p.Reqs {
+		if r.Kind == "keys" {
+			continue // (which names a static provider lists is not stated)
+		}
+		for pi, pair := range []struct {
+			m  *model
+			im *impl
+		}{{m1, im1}, {m2, im2}} {
+			mo, io := pair.m.request(r), pair.im.request(r)
+			if im1.maxDepth > 40 {
+				return &finding{"unbounded-recursion", "a cycle produces an error instead of recursion", fmt.Sprintf("program %s (two static providers): factories nested deeper than 40", p)}
+			}
+			if r.Kind == "latedef" {
+				if io.ok {
+					return &finding{"static/late-definition-accepted", "after the first resolution all further definitions are refused", fmt.Sprintf("program %s: static provider %d accepted %s", p, pi+1, r)}
+				}
+				continue
+			}
+			if mo.ok != io.ok || strings.Join(mo.vals, "|") != strings.Join(io.vals, "|") {
+				return &finding{"static/" + classify(p, r, mo, io, i), "every later request yields that same instance; a resolution never changes the outcome of any other or later request", fmt.Sprintf("program %s\ntwo static providers over one factories map; request %d %s on provider %d: provider %v, reference %v", p, i, r, pi+1, io, mo)}
+			}
+		}
+	}
+	var after []string
+	for k := range factories {
+		after = append(after, k)
+	}
+	sort.Strings(after)
+	if strings.Join(before, ",") != strings.Join(after, ",") {
+		return &finding{"static/caller-definitions-changed", "a resolution never changes the outcome of any other or later request", fmt.Sprintf("program %s: the caller's factories map held [%s] before and [%s] after the requests", p, strings.Join(before, ","), strings.Join(after, ","))}
+	}
+	return nil
+}
+
 func classify(p Program, r Req, mo, io outcome, idx int) string {
 	switch {
 	case r.Kind == "keys":
@@ -654,6 +729,22 @@ func run(c *fw.Ctx) {
 				if f := runProgram(p); f != nil {
 					report(f, p)
 				}
+				if len(rs) <= 2 {
+					sp := Program{Defs: defs, Reqs: rs, Static: true}
+					static := true
+					for _, d := range defs {
+						if d.Default {
+							static = false
+						}
+					}
+					if static {
+						c.R.Evaluations++
+						c.Count("two_static_provider_programs", 1)
+						if f := runStatic(sp); f != nil {
+							report(f, sp)
+						}
+					}
+				}
 			}
 			if item%50021 == 7 {
 				c.Sample(Program{Defs: defs, Reqs: seqs[len(seqs)/3]}.String())
@@ -668,7 +759,11 @@ func replay(wj json.RawMessage) (*fw.Violation, error) {
 	if err := json.Unmarshal(wj, &p); err != nil {
 		return nil, err
 	}
-	if f := runProgram(p); f != nil {
+	run := runProgram
+	if p.Static {
+		run = runStatic
+	}
+	if f := run(p); f != nil {
 		return &fw.Violation{Property: "C10", Clause: f.clause, Signature: "C10/" + f.kind, Detail: f.detail}, nil
 	}
 	return nil, nil
@@ -676,7 +771,7 @@ func replay(wj json.RawMessage) (*fw.Violation, error) {
 
 func init() {
 	fw.Register(&fw.Check{ID: "C10", Level: "exploration",
-		Rule: "programs = every ordered sequence of <=2..4 definition calls (Set/SetDefault/AddFactory/AddDefaultFactory over names {A,B,C}, one explicit and one default slot per name, factory shapes {const, fail, nil, requires X, tolerates X, injects X required, injects ?X} for every target X incl. self) x every sequence of <=2..3 requests from a 13-entry pool (Get, InjectTo with required/optional tags, Keys, late definitions); each program is run on the real provider and on a reference interpreter (memoised resolver, explicit-over-default, frozen after first resolution, cycle = error) and compared request by request (outcome class, instance identity, invocation counters, recursion depth). distinct = programs x request sequences",
+		Rule: "programs = every ordered sequence of <=2..4 definition calls (Set/SetDefault/AddFactory/AddDefaultFactory over names {A,B,C}, one explicit and one default slot per name, factory shapes {const, fail, nil, requires X, tolerates X, injects X required, injects ?X} for every target X incl. self) x every sequence of <=2..3 requests from a 13-entry pool (Get, InjectTo with required/optional tags, Keys, late definitions); each program is run on the real provider and on a reference interpreter (memoised resolver, explicit-over-default, frozen after first resolution, cycle = error) and compared request by request (outcome class, instance identity, invocation counters, recursion depth); every program of explicit definitions with <=2 requests additionally on TWO static providers (NewStaticProvider) built over one caller-owned factories map, each request issued on the first and then the second, each compared with a frozen reference of its own, and the caller's map compared before/after. distinct = programs x request sequences",
 		Run: run, Replay: replay,
 		Assumptions: []string{"two explicit (or two default) definitions of the same name are not generated: the statement does not say which wins", "error texts are never compared"}})
 }
